@@ -50,6 +50,90 @@ pub const GROUP_SITES: [Site; 10] = [
     Site { name: "header", levels: &["plain", "rich"] },
 ];
 
+// ---- thorough tier: the quick levels first (same indices), then the extended levels
+pub const ROOT_SITES_X: [Site; 11] = [
+    Site { name: "textures", levels: &["none", "one", "non_ascii", "many", "dups", "long", "n300"] },
+    Site { name: "materials", levels: &["none", "one", "many", "each_flag", "n300"] },
+    Site { name: "groups", levels: &["none", "one", "many", "dups", "empty_name", "non_ascii", "long", "each_flag", "n300"] },
+    Site { name: "portals", levels: &["none", "one", "many", "big", "n300", "v65535", "v65536", "start65536"] },
+    Site { name: "portal_refs", levels: &["none", "one", "many", "n300"] },
+    Site { name: "visible_lists", levels: &["none", "one", "many", "long", "n300"] },
+    Site { name: "lights", levels: &["none", "one", "many", "n300", "extreme"] },
+    Site { name: "doodad_defs", levels: &["none", "one", "many", "synth", "many_shared", "synth300"] },
+    Site { name: "doodad_sets", levels: &["none", "one", "many", "len20", "len25", "non_ascii", "n300"] },
+    Site { name: "skybox", levels: &["none", "some", "non_ascii", "long"] },
+    Site { name: "header", levels: &["plain", "rich", "custom_bounds", "all_flags", "extreme_bounds", "stale_low"] },
+];
+/// levels of each root site that take part in the full product of the thorough tier
+pub const ROOT_PROD: [&[u8]; 11] = [&[0, 1, 2, 3], &[0, 1, 2], &[0, 1, 2, 3], &[0, 1, 2], &[0, 1, 2], &[0, 1, 2], &[0, 1, 2], &[0, 1, 2, 3], &[0, 1, 2], &[0, 1], &[0, 1, 2]];
+
+pub const GROUP_SITES_X: [Site; 10] = [
+    Site { name: "vertices", levels: &["none", "one", "many", "n300", "n65537"] },
+    Site { name: "normals", levels: &["none", "one", "many", "n300", "n65537"] },
+    Site { name: "tex_coords", levels: &["none", "one", "many", "n300", "n65537"] },
+    Site { name: "indices", levels: &["none", "one", "many", "n300", "n65538"] },
+    Site { name: "batches", levels: &["none", "one", "many", "large_id", "n300"] },
+    Site { name: "bsp_nodes", levels: &["none", "one", "many", "leaves", "n300"] },
+    Site { name: "vertex_colors", levels: &["none", "one", "many", "n300", "n65537"] },
+    Site { name: "liquid", levels: &["none", "one", "many", "zero", "one_tiles", "row", "grid9", "big"] },
+    Site { name: "doodad_refs", levels: &["none", "one", "many", "n300", "n65537"] },
+    Site { name: "header", levels: &["plain", "rich", "all_flags", "extreme_bounds", "hi_offsets"] },
+];
+pub const GROUP_PROD: [&[u8]; 10] = [&[0, 1, 2], &[0, 1, 2], &[0, 1, 2], &[0, 1, 2], &[0, 1, 2], &[0, 1, 2], &[0, 1, 2], &[0, 1, 2], &[0, 1, 2], &[0, 1]];
+
+fn sort_cfgs(out: BTreeSet<Vec<u8>>) -> Vec<Vec<u8>> {
+    let mut v: Vec<Vec<u8>> = out.into_iter().collect();
+    v.sort_by_key(|c| {
+        (c.iter().filter(|&&l| l != 0).count(), c.iter().map(|&l| l as u32).sum::<u32>(), c.iter().rev().cloned().collect::<Vec<u8>>())
+    });
+    v
+}
+
+/// Thorough tier: the full product over the `prod` levels of every site, plus every vector over
+/// the extended alphabets `sites_x` with at most `k` sites deviating from the all-empty baseline
+/// and from the full baseline (`full`, the same one the quick tier uses).
+pub fn configs_deep(sites_x: &[Site], prod: &[&[u8]], full: &[u8], k: usize) -> Vec<Vec<u8>> {
+    let n = sites_x.len();
+    let mut out: BTreeSet<Vec<u8>> = BTreeSet::new();
+    let total: u64 = prod.iter().map(|p| p.len() as u64).product();
+    for mut i in 0..total {
+        let mut v = Vec::with_capacity(n);
+        for p in prod {
+            let r = p.len() as u64;
+            v.push(p[(i % r) as usize]);
+            i /= r;
+        }
+        out.insert(v);
+    }
+    let empty: Vec<u8> = vec![0; n];
+    for base in [&empty[..], full] {
+        fn rec(sites: &[Site], base: &[u8], cur: &mut Vec<u8>, from: usize, left: usize, out: &mut BTreeSet<Vec<u8>>) {
+            out.insert(cur.clone());
+            if left == 0 {
+                return;
+            }
+            for s in from..sites.len() {
+                for l in 0..sites[s].levels.len() as u8 {
+                    if l == base[s] {
+                        continue;
+                    }
+                    cur[s] = l;
+                    rec(sites, base, cur, s + 1, left - 1, out);
+                }
+                cur[s] = base[s];
+            }
+        }
+        let mut cur = base.to_vec();
+        rec(sites_x, base, &mut cur, 0, k, &mut out);
+    }
+    sort_cfgs(out)
+}
+
+/// the full baseline of the quick tier: the highest quick level of every site
+pub fn full_baseline(base_sites: &[Site]) -> Vec<u8> {
+    base_sites.iter().map(|s| (s.levels.len() - 1) as u8).collect()
+}
+
 /// Level vectors with at most `k` sites deviating from the all-lowest ("empty") baseline and from
 /// the all-highest ("full") baseline; `k >= number of sites` gives the full product.
 /// Ordered simplest first (fewest populated sites, then lowest levels).
@@ -117,17 +201,27 @@ pub fn table_offset(strings: &[String], k: usize) -> u32 {
 
 // ------------------------------------------------------------------ root
 
+fn rep(c: char, n: usize) -> String {
+    std::iter::repeat(c).take(n).collect()
+}
+
 pub fn root_textures(l: u8) -> Vec<String> {
     match l {
         0 => vec![],
         1 => vec!["a.blp".into()],
         2 => vec!["tex\\m\u{fc}hle.blp".into(), "b.blp".into()],
-        _ => vec![
+        3 => vec![
             "dungeons\\textures\\wall.blp".into(),
             "dungeons\\textures\\wall_s.blp".into(),
             "wall.blp".into(),
             "t.blp".into(),
         ],
+        // duplicate names: two table entries with the same string
+        4 => vec!["a.blp".into(), "a.blp".into(), "b.blp".into()],
+        // one name longer than 255 bytes
+        5 => vec![format!("t\\{}.blp", rep('x', 254)), "z.blp".into()],
+        // 300 names, table larger than 65536 bytes (offsets need more than 16 bits)
+        _ => (0..300).map(|i| format!("world\\{:03}\\{}.blp", i, rep('p', 216))).collect(),
     }
 }
 
@@ -135,61 +229,96 @@ pub fn root_textures(l: u8) -> Vec<String> {
 pub fn material_texture_ref(i: usize, slot: usize, ntex: usize) -> Option<usize> {
     if ntex == 0 {
         None
-    } else {
+    } else if i < 3 {
         Some((i * 2 + slot * 3 + 1) % ntex)
+    } else {
+        // later materials reference the table from its end (large offsets in a large table)
+        Some(ntex - 1 - ((i * 2 + slot * 3) % ntex))
     }
 }
 
 fn root_materials(l: u8, textures: &[String]) -> Vec<WmoMaterial> {
-    let n = [0usize, 1, 3][l as usize];
+    let n = [0usize, 1, 3, 12, 300][l as usize];
     let f = |i: usize| -> WmoMaterialFlags {
+        if l == 3 {
+            // every defined flag on its own
+            return WmoMaterialFlags::from_bits_truncate(1 << i);
+        }
         match i {
             0 => WmoMaterialFlags::UNLIT | WmoMaterialFlags::UNUSED3,
             1 => WmoMaterialFlags::empty(),
-            _ => WmoMaterialFlags::TWO_SIDED | WmoMaterialFlags::CLAMP_S | WmoMaterialFlags::SHADOW_BATCH_1 | WmoMaterialFlags::SHADOW_BATCH_2,
+            2 => WmoMaterialFlags::TWO_SIDED | WmoMaterialFlags::CLAMP_S | WmoMaterialFlags::SHADOW_BATCH_1 | WmoMaterialFlags::SHADOW_BATCH_2,
+            _ => WmoMaterialFlags::from_bits_truncate((i as u32).wrapping_mul(37) & 0xFFF),
         }
     };
+    let b = |i: usize, k: usize| (i.wrapping_mul(31).wrapping_add(k * 17) & 0xFF) as u8;
     (0..n)
         .map(|i| {
             let t = |slot| material_texture_ref(i, slot, textures.len()).map(|k| table_offset(textures, k)).unwrap_or(0);
+            let j = i.min(2);
+            let big = i >= 3;
             WmoMaterial {
                 flags: f(i),
-                shader: [0u32, 6, 0x0102_0304][i],
-                blend_mode: [1u32, 0, 0xFFFF_FFFE][i],
+                shader: if big { i as u32 * 3 } else { [0u32, 6, 0x0102_0304][j] },
+                blend_mode: if big { (i % 8) as u32 } else { [1u32, 0, 0xFFFF_FFFE][j] },
                 texture1: t(0),
-                emissive_color: [col(255, 0, 128, 7), col(0, 0, 0, 0), col(1, 2, 3, 4)][i],
-                sidn_color: [col(9, 8, 7, 6), col(255, 255, 255, 255), col(0, 1, 0, 1)][i],
+                emissive_color: if big { col(b(i, 0), b(i, 1), b(i, 2), b(i, 3)) } else { [col(255, 0, 128, 7), col(0, 0, 0, 0), col(1, 2, 3, 4)][j] },
+                sidn_color: if big { col(b(i, 4), b(i, 5), b(i, 6), b(i, 7)) } else { [col(9, 8, 7, 6), col(255, 255, 255, 255), col(0, 1, 0, 1)][j] },
                 framebuffer_blend: Color::default(),
                 texture2: t(1),
-                diffuse_color: [col(10, 20, 30, 40), col(0, 0, 0, 255), col(200, 100, 50, 25)][i],
-                ground_type: [0u32, 5, 0x7FFF_FFFF][i],
+                diffuse_color: if big { col(b(i, 8), b(i, 9), b(i, 10), b(i, 11)) } else { [col(10, 20, 30, 40), col(0, 0, 0, 255), col(200, 100, 50, 25)][j] },
+                ground_type: if big { 0x1000 + i as u32 } else { [0u32, 5, 0x7FFF_FFFF][j] },
             }
         })
         .collect()
 }
 
 fn root_groups(l: u8) -> Vec<WmoGroupInfo> {
-    let names: &[&str] = match l {
-        0 => &[],
-        1 => &["antechamber"],
-        2 => &["hall", "hall_upper", "ha"],
-        _ => &["room", "room", "attic"],
+    let names: Vec<String> = match l {
+        0 => vec![],
+        1 => vec!["antechamber".into()],
+        2 => vec!["hall".into(), "hall_upper".into(), "ha".into()],
+        3 => vec!["room".into(), "room".into(), "attic".into()],
+        // unnamed groups (empty names)
+        4 => vec!["".into(), "x".into(), "".into()],
+        5 => vec!["H\u{f6}hle".into(), "\u{6d1e}\u{7a9f}_01".into()],
+        // one name longer than 255 bytes
+        6 => vec![format!("g{}", rep('r', 299)), "b".into()],
+        // 18 groups, each with one defined flag
+        7 => (0..18).map(|i| format!("grp{:02}", i)).collect(),
+        // 300 groups, name table larger than 65536 bytes
+        _ => (0..300).map(|i| format!("{}_{:03}", rep('n', 225), i)).collect(),
     };
     names
-        .iter()
+        .into_iter()
         .enumerate()
-        .map(|(i, n)| WmoGroupInfo {
-            flags: [
-                WmoGroupFlags::INDOOR | WmoGroupFlags::HAS_NORMALS,
-                WmoGroupFlags::empty(),
-                WmoGroupFlags::HAS_WATER | WmoGroupFlags::EXTERIOR_BSP | WmoGroupFlags::HAS_BASE_VERTICES,
-            ][i],
-            bounding_box: [
-                bbox((-1.0, -2.0, -3.0), (4.0, 5.0, 6.0)),
-                bbox((-10.5, 0.25, -0.125), (-9.5, 100.0, 7.75)),
-                bbox((0.0, 0.0, 0.0), (0.5, 1024.0, 3.0)),
-            ][i],
-            name: n.to_string(),
+        .map(|(i, name)| {
+            let j = i.min(2);
+            let big = i >= 3;
+            WmoGroupInfo {
+                flags: if l == 7 {
+                    WmoGroupFlags::from_bits_truncate(1 << i)
+                } else if big {
+                    WmoGroupFlags::from_bits_truncate((i as u32).wrapping_mul(2654435761) & 0x3FFFF)
+                } else {
+                    [
+                        WmoGroupFlags::INDOOR | WmoGroupFlags::HAS_NORMALS,
+                        WmoGroupFlags::empty(),
+                        WmoGroupFlags::HAS_WATER | WmoGroupFlags::EXTERIOR_BSP | WmoGroupFlags::HAS_BASE_VERTICES,
+                    ][j]
+                },
+                bounding_box: if big {
+                    let f = i as f32;
+                    bbox((-f, -2.0 * f, -0.5 * f), (f + 1.0, 2.0 * f + 0.25, f * f))
+                } else {
+                    [
+                        bbox((-1.0, -2.0, -3.0), (4.0, 5.0, 6.0)),
+                        bbox((-10.5, 0.25, -0.125), (-9.5, 100.0, 7.75)),
+                        bbox((0.0, 0.0, 0.0), (0.5, 1024.0, 3.0)),
+                    ][j]
+                },
+                name,
+            }
         })
         .collect()
 }
@@ -199,18 +328,34 @@ fn root_portals(l: u8) -> Vec<WmoPortal> {
         vertices: vec![v3(0.0, 0.0, 0.0), v3(1.0, 0.0, 0.0), v3(1.0, 0.0, 2.0), v3(0.0, 0.0, 2.0)],
         normal: v3(0.0, 1.0, 0.0),
     };
+    let poly = |n: usize, salt: usize| WmoPortal {
+        vertices: (0..n).map(|i| v3((i + salt) as f32 * 0.5, salt as f32, -((i % 97) as f32))).collect(),
+        normal: v3(0.0, 1.0, 0.0),
+    };
     match l {
         0 => vec![],
         1 => vec![quad],
-        _ => vec![
+        2 => vec![
             quad,
             WmoPortal { vertices: vec![], normal: v3(1.0, 0.0, 0.0) },
             WmoPortal { vertices: vec![v3(5.0, 6.0, 7.0), v3(-5.5, 6.0, 7.0), v3(5.0, -6.25, 7.0)], normal: v3(0.0, 0.0, -1.0) },
         ],
+        // one portal with more than 255 vertices
+        3 => vec![poly(300, 1)],
+        4 => (0..300).map(|i| poly(3, i)).collect(),
+        // the largest portal and the largest start index a 16-bit MOPT entry can hold
+        5 => vec![poly(65535, 1), poly(3, 2)],
+        // one more vertex than a 16-bit count can hold
+        6 => vec![poly(65536, 1)],
+        // the fifth portal starts at vertex 65536
+        _ => (0..5).map(|i| poly(16384, i)).collect(),
     }
 }
 
 fn root_portal_refs(l: u8) -> Vec<WmoPortalReference> {
+    if l == 3 {
+        return (0..300u32).map(|i| WmoPortalReference { portal_index: i as u16, group_index: (i * 7 % 300) as u16, side: (i % 2) as u16 }).collect();
+    }
     let all = [
         WmoPortalReference { portal_index: 0, group_index: 1, side: 1 },
         WmoPortalReference { portal_index: 2, group_index: 0, side: 0xFFFF },
@@ -223,11 +368,19 @@ fn root_visible(l: u8) -> Vec<Vec<u16>> {
     match l {
         0 => vec![],
         1 => vec![vec![0]],
-        _ => vec![vec![1, 2, 3], vec![], vec![7, 0xFFFE]],
+        2 => vec![vec![1, 2, 3], vec![], vec![7, 0xFFFE]],
+        3 => vec![(0..300u16).map(|i| i * 3).collect(), vec![]],
+        _ => (0..300u16).map(|i| (0..(i % 4)).map(|k| i + k).collect()).collect(),
     }
 }
 
 fn root_lights(l: u8) -> Vec<WmoLight> {
+    let props = |t: WmoLightType| match t {
+        WmoLightType::Omni => WmoLightProperties::Omni,
+        WmoLightType::Ambient => WmoLightProperties::Ambient,
+        WmoLightType::Spot => WmoLightProperties::Spot { direction: v3(0.0, 0.0, -1.0), hotspot: 0.0, falloff: 0.0 },
+        WmoLightType::Directional => WmoLightProperties::Directional { direction: v3(0.0, 0.0, -1.0) },
+    };
     let mk = |t: WmoLightType, i: usize| WmoLight {
         light_type: t,
         position: v3(1.5 + i as f32, -2.25, 3.0 * i as f32),
@@ -237,33 +390,81 @@ fn root_lights(l: u8) -> Vec<WmoLight> {
         attenuation_start: [0.0f32, 1.25, 3.0, 100.0][i],
         attenuation_end: [10.0f32, 2.5, 3.5, 1000.0][i],
         use_attenuation: i % 2 == 0,
-        properties: match t {
-            WmoLightType::Omni => WmoLightProperties::Omni,
-            WmoLightType::Ambient => WmoLightProperties::Ambient,
-            WmoLightType::Spot => WmoLightProperties::Spot { direction: v3(0.0, 0.0, -1.0), hotspot: 0.0, falloff: 0.0 },
-            WmoLightType::Directional => WmoLightProperties::Directional { direction: v3(0.0, 0.0, -1.0) },
-        },
+        properties: props(t),
     };
+    let types = [WmoLightType::Omni, WmoLightType::Spot, WmoLightType::Directional, WmoLightType::Ambient];
     match l {
         0 => vec![],
         1 => vec![mk(WmoLightType::Spot, 1)],
-        _ => vec![mk(WmoLightType::Omni, 0), mk(WmoLightType::Spot, 1), mk(WmoLightType::Directional, 2), mk(WmoLightType::Ambient, 3)],
+        2 => vec![mk(WmoLightType::Omni, 0), mk(WmoLightType::Spot, 1), mk(WmoLightType::Directional, 2), mk(WmoLightType::Ambient, 3)],
+        3 => (0..300usize)
+            .map(|i| {
+                let mut x = mk(types[i % 4], i % 4);
+                x.position = v3(i as f32, -(i as f32) * 0.5, 0.25 * i as f32);
+                x.intensity = i as f32 / 8.0;
+                x.color = col((i & 0xFF) as u8, (i >> 1 & 0xFF) as u8, (i * 3 & 0xFF) as u8, (i * 7 & 0xFF) as u8);
+                x
+            })
+            .collect(),
+        // extreme but well-defined float values (no NaN: it has no equality)
+        _ => {
+            let ex = [f32::INFINITY, -0.0f32, f32::MAX, f32::MIN_POSITIVE / 4.0];
+            (0..4usize)
+                .map(|i| {
+                    let mut x = mk(types[i], i);
+                    x.intensity = ex[i];
+                    x.position = v3(ex[(i + 1) % 4], -ex[(i + 2) % 4], f32::MIN);
+                    x.rotation = [ex[i], ex[(i + 1) % 4], ex[(i + 2) % 4], ex[(i + 3) % 4]];
+                    x.attenuation_start = f32::NEG_INFINITY;
+                    x.attenuation_end = ex[(i + 3) % 4];
+                    x
+                })
+                .collect()
+        }
     }
+}
+
+/// name offsets that the writer's synthesised MODN table ("doodad_<offset>" per definition)
+/// reproduces: 0, 9, 18, 28, ...
+pub fn synth_offsets(n: usize) -> Vec<u32> {
+    let mut out = Vec::with_capacity(n);
+    let mut o = 0u32;
+    for _ in 0..n {
+        out.push(o);
+        o += format!("doodad_{o}").len() as u32 + 1;
+    }
+    out
 }
 
 fn root_doodad_defs(l: u8) -> Vec<WmoDoodadDef> {
     // name offsets as they would come from a parsed file whose MODN holds
     // "world\\chair.m2\0" (15 bytes), "world\\generic\\barrel01.m2\0" (26 bytes), "w\\x.m2\0"
-    let offs = [0u32, 15, 41];
-    let n = [0usize, 1, 3][l as usize];
+    let offs: Vec<u32> = match l {
+        0 => vec![],
+        1 => vec![15],
+        2 => vec![0, 15, 41],
+        3 => synth_offsets(3),
+        // several definitions of the same model (they share one name)
+        4 => vec![0, 0, 15, 15],
+        _ => synth_offsets(300),
+    };
+    let n = offs.len();
     (0..n)
-        .map(|i| WmoDoodadDef {
-            name_offset: if n == 1 { 15 } else { offs[i] },
-            position: v3(10.0 * i as f32, -0.5, 2.0),
-            orientation: [[0.0f32, 0.0, 0.0, 1.0], [0.0, 0.7071068, 0.0, 0.7071068], [0.5, -0.5, 0.5, -0.5]][i],
-            scale: [1.0f32, 0.5, 2.25][i],
-            color: [col(255, 255, 255, 255), col(1, 2, 3, 4), col(0, 128, 0, 200)][i],
-            set_index: 0,
+        .map(|i| {
+            let j = i.min(2);
+            let big = i >= 3;
+            WmoDoodadDef {
+                name_offset: offs[i],
+                position: v3(10.0 * i as f32, -0.5, 2.0),
+                orientation: if big {
+                    [0.5, -0.5, (i % 5) as f32 * 0.25, 1.0]
+                } else {
+                    [[0.0f32, 0.0, 0.0, 1.0], [0.0, 0.7071068, 0.0, 0.7071068], [0.5, -0.5, 0.5, -0.5]][j]
+                },
+                scale: if big { 0.125 * i as f32 } else { [1.0f32, 0.5, 2.25][j] },
+                color: if big { col((i & 0xFF) as u8, (i * 5 & 0xFF) as u8, 3, 4) } else { [col(255, 255, 255, 255), col(1, 2, 3, 4), col(0, 128, 0, 200)][j] },
+                set_index: 0,
+            }
         })
         .collect()
 }
@@ -272,11 +473,23 @@ fn root_doodad_sets(l: u8) -> Vec<WmoDoodadSet> {
     match l {
         0 => vec![],
         1 => vec![WmoDoodadSet { name: "Set_$DefaultGlobal".into(), start_doodad: 0, n_doodads: 3 }],
-        _ => vec![
+        2 => vec![
             WmoDoodadSet { name: "Set_$DefaultGlobal".into(), start_doodad: 0, n_doodads: 1 },
             WmoDoodadSet { name: "Set_nineteen_chars_".into(), start_doodad: 1, n_doodads: 2 },
             WmoDoodadSet { name: "a".into(), start_doodad: 0x0102_0304, n_doodads: 0 },
         ],
+        // names that fill the 20-byte field completely
+        3 => vec![
+            WmoDoodadSet { name: "Set_exactly_20_bytes".into(), start_doodad: 0, n_doodads: 1 },
+            WmoDoodadSet { name: format!("{}\u{fc}", rep('a', 18)), start_doodad: 1, n_doodads: 1 },
+        ],
+        // a name longer than the field
+        4 => vec![
+            WmoDoodadSet { name: "Set_twentyfive_bytes_long".into(), start_doodad: 0, n_doodads: 1 },
+            WmoDoodadSet { name: "ok".into(), start_doodad: 1, n_doodads: 1 },
+        ],
+        5 => vec![WmoDoodadSet { name: "Satz_gr\u{fc}n".into(), start_doodad: 2, n_doodads: 5 }],
+        _ => (0..300u32).map(|i| WmoDoodadSet { name: format!("Set_{:03}", i), start_doodad: i * 3, n_doodads: i % 7 }).collect(),
     }
 }
 
@@ -293,7 +506,7 @@ pub fn union_box(groups: &[WmoGroupInfo]) -> BoundingBox {
     b
 }
 
-/// cfg indices follow ROOT_SITES
+/// cfg indices follow ROOT_SITES / ROOT_SITES_X
 pub fn build_root(cfg: &[u8], version: WmoVersion) -> WmoRoot {
     let textures = root_textures(cfg[0]);
     let materials = root_materials(cfg[1], &textures);
@@ -304,24 +517,40 @@ pub fn build_root(cfg: &[u8], version: WmoVersion) -> WmoRoot {
     let lights = root_lights(cfg[6]);
     let doodad_defs = root_doodad_defs(cfg[7]);
     let doodad_sets = root_doodad_sets(cfg[8]);
-    let skybox = if cfg[9] == 1 { Some("environments\\stars\\deathskybox.mdx".to_string()) } else { None };
-    let hdr = cfg[10];
-    let bounding_box = if hdr == 2 { bbox((-100.5, -200.25, -300.125), (100.5, 200.25, 300.125)) } else { union_box(&groups) };
-    let (flags, ambient_color) = if hdr == 0 {
-        (WmoFlags::empty(), col(0, 0, 0, 0))
-    } else {
-        (WmoFlags::OUTDOOR | WmoFlags::HAS_LIQUIDS | WmoFlags::MOUNT_ALLOWED | WmoFlags::HAS_VERTEX_COLORS, col(11, 22, 33, 44))
+    let skybox = match cfg[9] {
+        0 => None,
+        1 => Some("environments\\stars\\deathskybox.mdx".to_string()),
+        2 => Some("environments\\Himmel\u{df}\\nacht.mdx".to_string()),
+        _ => Some(format!("environments\\{}.mdx", rep('s', 283))),
     };
-    // "rich": the counts stored in the in-memory header are stale; the writer must use the list lengths
-    let stale = if hdr == 1 { 7 } else { 0 };
+    let hdr = cfg[10];
+    let bounding_box = match hdr {
+        2 => bbox((-100.5, -200.25, -300.125), (100.5, 200.25, 300.125)),
+        4 => bbox((f32::NEG_INFINITY, -0.0, f32::MIN), (f32::MAX, f32::MIN_POSITIVE / 4.0, f32::INFINITY)),
+        _ => union_box(&groups),
+    };
+    let (flags, ambient_color) = match hdr {
+        0 => (WmoFlags::empty(), col(0, 0, 0, 0)),
+        3 => (WmoFlags::all() & !WmoFlags::HAS_SKYBOX, col(1, 2, 3, 4)),
+        _ => (WmoFlags::OUTDOOR | WmoFlags::HAS_LIQUIDS | WmoFlags::MOUNT_ALLOWED | WmoFlags::HAS_VERTEX_COLORS, col(11, 22, 33, 44)),
+    };
+    // "rich": the counts stored in the in-memory header are stale (too high); "stale_low": they are
+    // all zero; the writer must use the list lengths
+    let cnt = |len: usize| -> u32 {
+        match hdr {
+            1 => len as u32 + 7,
+            5 => 0,
+            _ => len as u32,
+        }
+    };
     let header = WmoHeader {
-        n_materials: materials.len() as u32 + stale,
-        n_groups: groups.len() as u32 + stale,
-        n_portals: portals.len() as u32 + stale,
-        n_lights: lights.len() as u32 + stale,
-        n_doodad_names: doodad_defs.len() as u32 + stale,
-        n_doodad_defs: doodad_defs.len() as u32 + stale,
-        n_doodad_sets: doodad_sets.len() as u32 + stale,
+        n_materials: cnt(materials.len()),
+        n_groups: cnt(groups.len()),
+        n_portals: cnt(portals.len()),
+        n_lights: cnt(lights.len()),
+        n_doodad_names: cnt(doodad_defs.len()),
+        n_doodad_defs: cnt(doodad_defs.len()),
+        n_doodad_sets: cnt(doodad_sets.len()),
         flags,
         ambient_color,
     };
@@ -354,18 +583,27 @@ fn pts(n: usize, salt: f32) -> Vec<Vec3> {
     (0..n).map(|i| v3(salt + i as f32 * 1.5, -(i as f32) - 0.25 * salt, salt * 2.0 + (i * i) as f32)).collect()
 }
 
-/// cfg indices follow GROUP_SITES
+/// cfg indices follow GROUP_SITES / GROUP_SITES_X
 pub fn build_group(cfg: &[u8]) -> WmoGroup {
-    let cnt = |l: u8| [0usize, 1, 4][l as usize];
+    let cnt = |l: u8| [0usize, 1, 4, 300, 65537][l as usize];
     let vertices = pts(cnt(cfg[0]), 1.0);
     let normals: Vec<Vec3> = (0..cnt(cfg[1]))
-        .map(|i| [v3(0.0, 0.0, 1.0), v3(0.0, -1.0, 0.0), v3(0.6, 0.8, 0.0), v3(-1.0, 0.0, 0.0)][i])
+        .map(|i| {
+            if i < 4 {
+                [v3(0.0, 0.0, 1.0), v3(0.0, -1.0, 0.0), v3(0.6, 0.8, 0.0), v3(-1.0, 0.0, 0.0)][i]
+            } else {
+                let a = (i % 360) as f32;
+                v3(a / 360.0, 1.0 - a / 360.0, -((i % 7) as f32) / 8.0)
+            }
+        })
         .collect();
     let tex_coords: Vec<TexCoord> = (0..cnt(cfg[2])).map(|i| TexCoord { u: 0.25 * i as f32, v: 1.0 - 0.125 * i as f32 }).collect();
     let indices: Vec<u16> = match cfg[3] {
         0 => vec![],
         1 => vec![0, 1, 2],
-        _ => vec![0, 1, 2, 2, 1, 3, 3, 0, 0xFFFE],
+        2 => vec![0, 1, 2, 2, 1, 3, 3, 0, 0xFFFE],
+        3 => (0..300u32).map(|i| (i * 7 % 300) as u16).collect(),
+        _ => (0..65538u32).map(|i| (i.wrapping_mul(40503) & 0xFFFF) as u16).collect(),
     };
     let mkb = |i: usize| WmoBatch {
         flags: [[0u8; 10], [1, 2, 3, 4, 5, 6, 7, 8, 9, 10], [0xFF; 10]][i],
@@ -379,7 +617,23 @@ pub fn build_group(cfg: &[u8]) -> WmoGroup {
     let batches: Vec<WmoBatch> = match cfg[4] {
         0 => vec![],
         1 => vec![mkb(1)],
-        _ => vec![mkb(0), mkb(1), mkb(2)],
+        2 => vec![mkb(0), mkb(1), mkb(2)],
+        // material ids that need the 16-bit slot
+        3 => vec![
+            WmoBatch { flags: [0; 10], material_id: 0x1234, start_index: 0, count: 3, start_vertex: 0, end_vertex: 2, use_large_material_id: true },
+            WmoBatch { flags: [9; 10], material_id: 256, start_index: 3, count: 3, start_vertex: 0, end_vertex: 3, use_large_material_id: false },
+        ],
+        _ => (0..300u32)
+            .map(|i| WmoBatch {
+                flags: [(i & 0xFF) as u8; 10],
+                material_id: (i % 256) as u16,
+                start_index: i * 3,
+                count: (i % 50 * 3) as u16,
+                start_vertex: i as u16,
+                end_vertex: (i + 2) as u16,
+                use_large_material_id: false,
+            })
+            .collect(),
     };
     let mkn = |i: usize| WmoBspNode {
         plane: WmoPlane { normal: [v3(1.0, 0.0, 0.0), v3(0.0, 1.0, 0.0), v3(0.0, 0.0, 1.0)][i], distance: [0.5f32, -12.25, 300.0][i] },
@@ -387,14 +641,43 @@ pub fn build_group(cfg: &[u8]) -> WmoGroup {
         first_face: [0u16, 4, 0xFFFE][i],
         num_faces: [0u16, 4, 9][i],
     };
+    let axis = |i: usize| [v3(1.0, 0.0, 0.0), v3(0.0, 1.0, 0.0), v3(0.0, 0.0, 1.0), v3(-1.0, 0.0, 0.0), v3(0.0, -1.0, 0.0), v3(0.0, 0.0, -1.0)][i % 6];
     let bsp_nodes = match cfg[5] {
         0 => None,
         1 => Some(vec![mkn(1)]),
-        _ => Some(vec![mkn(0), mkn(1), mkn(2)]),
+        2 => Some(vec![mkn(0), mkn(1), mkn(2)]),
+        // inner nodes and leaves on every axis and orientation
+        3 => Some(
+            (0..12usize)
+                .map(|i| WmoBspNode {
+                    plane: WmoPlane { normal: axis(i), distance: i as f32 - 5.5 },
+                    children: if i % 2 == 0 { [(i + 1) as i16, (i + 2) as i16] } else { [-1, -1] },
+                    first_face: (i * 3) as u16,
+                    num_faces: if i % 2 == 0 { 0 } else { i as u16 },
+                })
+                .collect(),
+        ),
+        _ => Some(
+            (0..300usize)
+                .map(|i| WmoBspNode {
+                    plane: WmoPlane { normal: axis(i), distance: (i as f32) * 0.75 - 100.0 },
+                    children: if i < 149 { [(2 * i + 1) as i16, (2 * i + 2) as i16] } else { [-1, -1] },
+                    first_face: (i * 5) as u16,
+                    num_faces: if i < 149 { 0 } else { 5 },
+                })
+                .collect(),
+        ),
     };
     let vertex_colors = match cfg[6] {
         0 => None,
-        l => Some((0..cnt(l)).map(|i| col(10 + i as u8, 20 + i as u8, 30 + i as u8, 255 - i as u8)).collect()),
+        l => Some(
+            (0..cnt(l))
+                .map(|i| {
+                    let b = (i & 0xFF) as u8;
+                    col(10u8.wrapping_add(b), 20u8.wrapping_add(b), 30u8.wrapping_add(b), 255u8.wrapping_sub(b))
+                })
+                .collect(),
+        ),
     };
     let liq = |w: u32, h: u32, tiles: bool| WmoLiquid {
         liquid_type: 2 + w,
@@ -404,22 +687,36 @@ pub fn build_group(cfg: &[u8]) -> WmoGroup {
         vertices: (0..(w * h) as usize)
             .map(|i| WmoLiquidVertex { position: v3(i as f32, 2.0 * i as f32, 0.5), height: 0.25 + i as f32 })
             .collect(),
-        tile_flags: if tiles { Some((0..((w - 1) * (h - 1)) as usize).map(|i| 0x40 + i as u8).collect()) } else { None },
+        tile_flags: if tiles { Some((0..(w.saturating_sub(1) * h.saturating_sub(1)) as usize).map(|i| 0x40u8.wrapping_add(i as u8)).collect()) } else { None },
     };
     let liquid = match cfg[7] {
         0 => None,
         1 => Some(liq(1, 1, false)),
-        _ => Some(liq(3, 2, true)),
+        2 => Some(liq(3, 2, true)),
+        // a liquid without any vertex
+        3 => Some(liq(0, 0, false)),
+        // grids without tiles that nevertheless carry an (empty) tile list
+        4 => Some(liq(1, 1, true)),
+        5 => Some(liq(5, 1, true)),
+        // the usual 9x9 vertex / 8x8 tile grid with non-default type and flags
+        6 => {
+            let mut l = liq(9, 9, true);
+            l.liquid_type = 0x0102_0304;
+            l.flags = 0xFFFF_FFFD;
+            Some(l)
+        }
+        _ => Some(liq(257, 3, true)),
     };
     let doodad_refs = match cfg[8] {
         0 => None,
         1 => Some(vec![5u16]),
-        _ => Some(vec![0u16, 0xFFFE, 3]),
+        2 => Some(vec![0u16, 0xFFFE, 3]),
+        3 => Some((0..300u32).map(|i| (i * 11 % 300) as u16).collect()),
+        _ => Some((0..65537u32).map(|i| (i & 0xFFFF) as u16).collect()),
     };
-    let header = if cfg[9] == 0 {
-        WmoGroupHeader { flags: WmoGroupFlags::empty(), bounding_box: bbox((0.0, 0.0, 0.0), (0.0, 0.0, 0.0)), name_offset: 0, group_index: 0 }
-    } else {
-        WmoGroupHeader {
+    let header = match cfg[9] {
+        0 => WmoGroupHeader { flags: WmoGroupFlags::empty(), bounding_box: bbox((0.0, 0.0, 0.0), (0.0, 0.0, 0.0)), name_offset: 0, group_index: 0 },
+        1 => WmoGroupHeader {
             flags: WmoGroupFlags::HAS_NORMALS
                 | WmoGroupFlags::INDOOR
                 | WmoGroupFlags::HAS_VERTEX_COLORS
@@ -430,7 +727,15 @@ pub fn build_group(cfg: &[u8]) -> WmoGroup {
             bounding_box: bbox((-1.5, -2.5, -3.5), (4.25, 5.125, 6.0625)),
             name_offset: 17,
             group_index: 3,
-        }
+        },
+        2 => WmoGroupHeader { flags: WmoGroupFlags::all(), bounding_box: bbox((-1.0, -1.0, -1.0), (1.0, 1.0, 1.0)), name_offset: 1, group_index: 1 },
+        3 => WmoGroupHeader {
+            flags: WmoGroupFlags::INDOOR,
+            bounding_box: bbox((f32::NEG_INFINITY, -0.0, f32::MIN), (f32::MAX, f32::MIN_POSITIVE / 4.0, f32::INFINITY)),
+            name_offset: 0,
+            group_index: 0,
+        },
+        _ => WmoGroupHeader { flags: WmoGroupFlags::HAS_DOODADS, bounding_box: bbox((0.0, 0.0, 0.0), (1.0, 1.0, 1.0)), name_offset: 0xFFFF_FFFF, group_index: 0xFFFF_FFFE },
     };
     WmoGroup { header, materials: vec![], vertices, normals, tex_coords, batches, indices, vertex_colors, bsp_nodes, liquid, doodad_refs }
 }
